@@ -199,6 +199,181 @@ func c04One(o *hx.Out, r *hx.Rng, u string, v float64, tags ...string) (err erro
 	return nil
 }
 
+type c04SeqInput struct {
+	Kind    string `json:"kind"`
+	Text    string `json:"text"` // Go-quoted
+	Filter  string `json:"filter"`
+	Lookups []string `json:"lookups"`
+}
+
+type c04SeqLine struct {
+	unit bool // a "Unit u better=val" line
+	u    string
+	val  string
+	us   []string  // bench line: units
+	vs   []float64 // bench line: values
+}
+
+// c04Seq reads a whole text through ONE Reader (one unit table) and judges
+// every result with ONE Filter (Match, then Apply), in order.
+func c04Seq(o *hx.Out, lit string, lines []c04SeqLine, lookups []string, tags ...string) (err error) {
+	defer func() {
+		if p := recover(); p != nil {
+			err = fmt.Errorf("PANIC-INPUT seq filter=%q: %v", lit, p)
+		}
+	}()
+	var sb strings.Builder
+	for _, l := range lines {
+		if l.unit {
+			sb.WriteString("Unit " + l.u + " better=" + l.val + "\n")
+			continue
+		}
+		sb.WriteString("BenchmarkX 1")
+		for i := range l.us {
+			sb.WriteString(" " + c04FmtFloat(l.vs[i]) + " " + l.us[i])
+		}
+		sb.WriteString("\n")
+	}
+	text := sb.String()
+	flt, ferr := benchproc.NewFilter(".unit:" + strconv.Quote(lit))
+	if ferr != nil {
+		o.Count("filter-unparsable")
+		return nil
+	}
+	items := make([]hx.Sx, len(lines))
+	recs := make([][]hx.Sx, len(lines))
+	seen := make([]bool, len(lines))
+	rdr := benchfmt.NewReader(strings.NewReader(text), "f")
+	for rdr.Scan() {
+		rec := rdr.Result()
+		_, ln := rec.Pos()
+		if ln < 1 || ln > len(lines) {
+			return fmt.Errorf("record at line %d of %q", ln, text)
+		}
+		l := lines[ln-1]
+		switch x := rec.(type) {
+		case *benchfmt.Result:
+			if l.unit || len(x.Values) != len(l.us) || seen[ln-1] {
+				return fmt.Errorf("unexpected result at line %d of %q", ln, text)
+			}
+			seen[ln-1] = true
+			var wr, mb, after []hx.Sx
+			for i, v := range x.Values {
+				pv := v.Value
+				if v.OrigUnit != "" {
+					pv = v.OrigValue
+				}
+				wr = append(wr, hx.L(hx.S(l.us[i]), hx.F64(pv)))
+			}
+			m, merr := flt.Match(x)
+			if merr != nil {
+				return merr
+			}
+			for i := range x.Values {
+				mb = append(mb, hx.Bool(m.Test(i)))
+			}
+			kept := m.Apply(x)
+			for _, v := range x.Values {
+				after = append(after, hx.L(hx.F64(v.Value), hx.S(v.Unit), hx.F64(v.OrigValue), hx.S(v.OrigUnit)))
+			}
+			items[ln-1] = hx.L(hx.I(0), hx.List(wr), hx.List(mb), hx.Bool(kept), hx.List(after))
+		case *benchfmt.UnitMetadata:
+			recs[ln-1] = append(recs[ln-1], hx.L(hx.I(0), c04Meta(x)))
+		case *benchfmt.SyntaxError:
+			recs[ln-1] = append(recs[ln-1], hx.L(hx.I(1), hx.L()))
+		}
+	}
+	for i, l := range lines {
+		if l.unit {
+			items[i] = hx.L(hx.I(1), hx.S(l.u), hx.S(l.val), hx.List(recs[i]))
+		} else if !seen[i] {
+			return fmt.Errorf("no result for line %d of %q", i+1, text)
+		}
+	}
+	var gets []hx.Sx
+	for _, x := range lookups {
+		gets = append(gets, hx.L(hx.S(x), c04Meta(rdr.Units().Get(x, "better"))))
+	}
+	var q []string
+	for _, x := range lookups {
+		q = append(q, strconv.Quote(x))
+	}
+	o.Count(fmt.Sprintf("sequence:lines=%d", len(lines)))
+	o.Add(hx.L(hx.I(2), hx.S(lit), hx.List(items), hx.List(gets)),
+		c04SeqInput{Kind: "sequence", Text: strconv.Quote(text), Filter: ".unit:" + strconv.Quote(lit), Lookups: q},
+		"seq\x00"+lit+"\x00"+text, true, append(tags, "sequence")...)
+	return nil
+}
+
+// c04GenSeq builds sequences of 2-4 results of one metric written differently
+// (and bystanders), with unit lines in between, for every choice of filter literal.
+func c04GenSeq(o *hx.Out, r *hx.Rng, n int) error {
+	fams := [][]string{{"ns/op", "sec/op"}, {"MB/s", "B/s"}, {"ns", "sec"}, {"MB*ns/op", "B*sec/op"}, {"x-ns", "x-sec"},
+		{"ns/ns", "sec/ns"}, {"é/op", "é/op"}, {"MB", "B"}, {"ns/op\xff", "sec/op\xff"}}
+	other := []string{"B/op", "allocs/op", "op/ns", "nsx", "sec/opx", "widgets"}
+	one := func(fam []string, order []int, lit string, withUnits bool) error {
+		var lines []c04SeqLine
+		for _, k := range order {
+			l := c04SeqLine{}
+			nv := r.Range(1, 3)
+			for j := 0; j < nv; j++ {
+				u := fam[k]
+				if j > 0 {
+					switch r.Intn(3) {
+					case 0:
+						u = fam[1-k]
+					case 1:
+						u = other[r.Intn(len(other))]
+					}
+				}
+				l.us = append(l.us, u)
+				l.vs = append(l.vs, c04Value(r))
+			}
+			if r.Chance(0.3) { // the family unit not in first position
+				l.us[0], l.us[len(l.us)-1] = l.us[len(l.us)-1], l.us[0]
+			}
+			if withUnits && r.Chance(0.5) {
+				lines = append(lines, c04SeqLine{unit: true, u: fam[r.Intn(2)], val: []string{"lower", "higher"}[r.Intn(2)]})
+			}
+			lines = append(lines, l)
+		}
+		if withUnits {
+			lines = append(lines, c04SeqLine{unit: true, u: fam[r.Intn(2)], val: "lower"})
+		}
+		return c04Seq(o, lit, lines, []string{fam[0], fam[1], other[0], fam[0] + "x"})
+	}
+	// the two orders of every family, filter naming the written and the base unit
+	for _, fam := range fams {
+		for _, order := range [][]int{{1, 0}, {0, 1}, {1, 0, 1}, {0, 1, 0, 1}, {0, 0}, {1, 1}} {
+			for _, lit := range []string{fam[0], fam[1], other[0]} {
+				if err := one(fam, order, lit, false); err != nil {
+					return err
+				}
+			}
+		}
+	}
+	for i := 0; i < n; i++ {
+		fam := fams[r.Intn(len(fams))]
+		if r.Chance(0.3) { // a family from the unit grammar
+			u := c04Comp[r.Intn(5)] + []string{"/", "*", "-"}[r.Intn(3)] + c04Comp[r.Intn(8)]
+			_, tu := benchunit.Tidy(1, u)
+			fam = []string{u, tu}
+		}
+		order := make([]int, r.Range(2, 4))
+		for j := range order {
+			order[j] = r.Intn(2)
+		}
+		lit := fam[r.Intn(2)]
+		if r.Chance(0.15) {
+			lit = other[r.Intn(len(other))]
+		}
+		if err := one(fam, order, lit, r.Chance(0.6)); err != nil {
+			return err
+		}
+	}
+	return nil
+}
+
 var c04Special = []float64{0, math.Copysign(0, -1), math.Inf(1), math.Inf(-1), math.NaN(), 1, -1, 1e9, 1e-9, 123.5,
 	5e-324, 2.2250738585072014e-308, math.MaxFloat64, 1e300, 3, 1e6}
 
@@ -217,7 +392,7 @@ var c04Comp = []string{"ns", "MB", "B", "sec", "op", "s", "bytes", "xns", "nsx",
 var c04Sep = []string{"/", "*", "-", " ", "\t", "\u00a0", "\u2028", "\u3000", "\u0085", "\v", "//", "*/", "/*", "\u1680", "\n", "\u200b"}
 
 func genC04(o *hx.Out, r *hx.Rng, tier string, replay string) error {
-	o.Rule = "units built from components {ns MB B sec op s bytes xns nsx MBps µs é nsMB '' invalid-UTF-8 …} joined by / * - and ASCII/Unicode white space (exhaustive over a small alphabet up to a bound, then random longer ones, plus the fast-path literals and near misses), each with values from {0,-0,±Inf,NaN,subnormal,max,…} and random bit patterns; observed: benchunit.Tidy (twice), benchfmt.Reader Values, UnitMetadataMap.Get, .unit filters. non-trivial = the unit is rewritten; distinct by (unit, value bits)"
+	o.Rule = "units built from components {ns MB B sec op s bytes xns nsx MBps µs é nsMB '' invalid-UTF-8 …} joined by / * - and ASCII/Unicode white space (exhaustive over a small alphabet up to a bound, then random longer ones, plus the fast-path literals and near misses), each with values from {0,-0,±Inf,NaN,subnormal,max,…} and random bit patterns; observed: benchunit.Tidy (twice), benchfmt.Reader Values, UnitMetadataMap.Get, .unit filters; plus sequences of 2-4 results of one metric written under its written and its base unit in every order (with unit lines in between) read through ONE Reader and judged by ONE Filter (Match then Apply), each result independently. non-trivial = the unit is rewritten; distinct by (unit, value bits)"
 	// table case: the rune class and float constants the model is evaluated with
 	o.Add(hx.L(hx.I(0), hx.List(unicodeRanges(unicode.IsSpace)), hx.F64(1e-9), hx.F64(1e6), hx.F64(1e9)),
 		map[string]string{"kind": "tables"}, "tables", false)
@@ -261,6 +436,14 @@ func genC04(o *hx.Out, r *hx.Rng, tier string, replay string) error {
 		return err
 	}
 	o.Extra["exhaustive_components"] = depth
+	// sequences through one Reader / one unit table / one Filter
+	nseq := 600
+	if tier == "thorough" {
+		nseq = 15000
+	}
+	if err := c04GenSeq(o, r, nseq); err != nil {
+		return err
+	}
 	// random
 	n := 2500
 	if tier == "thorough" {
